@@ -18,6 +18,7 @@
 #include <stdarg.h>
 #include <stdbool.h>
 #include <stdint.h>
+#include <pthread.h>
 #include <stdio.h>
 #include <stdlib.h>
 #include <string.h>
@@ -113,6 +114,8 @@ struct vcnt {
 };
 extern struct vcnt VCNT[MAX_CNT];
 extern unsigned int VCNT_N;
+/* engines with several library threads count from all of them */
+extern pthread_mutex_t VCNT_MX;
 
 extern char VO_OUTFILE[4096];
 
@@ -149,10 +152,8 @@ static inline void vo_case(long c)
 }
 
 /* counters: linear lookup over a small table keyed by string */
-static inline void cnt_add(const char *k, uint64_t v)
+static inline void cnt_add_locked(const char *k, uint64_t v)
 {
-	if (VO.muted)
-		return;
 	for (unsigned int i = 0; i < VCNT_N; i++) {
 		if (VCNT[i].k == k || strcmp(VCNT[i].k, k) == 0) {
 			VCNT[i].v += v;
@@ -167,18 +168,33 @@ static inline void cnt_add(const char *k, uint64_t v)
 	}
 }
 
+static inline void cnt_add(const char *k, uint64_t v)
+{
+	if (VO.muted)
+		return;
+	if (pthread_mutex_trylock(&VCNT_MX)) {
+		pthread_mutex_lock(&VCNT_MX);
+		cnt_add_locked("harness/counter_lock_contended", 1);
+	}
+	cnt_add_locked(k, v);
+	pthread_mutex_unlock(&VCNT_MX);
+}
+
 static inline void cnt_max(const char *k, uint64_t v)
 {
 	if (VO.muted)
 		return;
+	pthread_mutex_lock(&VCNT_MX);
 	for (unsigned int i = 0; i < VCNT_N; i++) {
 		if (strcmp(VCNT[i].k, k) == 0) {
 			if (v > VCNT[i].v)
 				VCNT[i].v = v;
+			pthread_mutex_unlock(&VCNT_MX);
 			return;
 		}
 	}
-	cnt_add(k, v);
+	cnt_add_locked(k, v);
+	pthread_mutex_unlock(&VCNT_MX);
 }
 
 #define CNT(k) cnt_add((k), 1)
@@ -359,7 +375,8 @@ static inline long argkv_l(int argc, char **argv, const char *key, long dflt)
 	struct vout VO = {.progfd = -1}; \
 	struct vcnt VCNT[MAX_CNT];   \
 	char VO_OUTFILE[4096];       \
-	unsigned int VCNT_N;
+	unsigned int VCNT_N;         \
+	pthread_mutex_t VCNT_MX = PTHREAD_MUTEX_INITIALIZER;
 
 /* hex helper for samples/witnesses */
 static inline char *hexstr(char *dst, size_t dstlen, const void *p, size_t n)
